@@ -8,7 +8,8 @@ def listing (d : Dir) : String :=
   let parts := d.map fun (n, f) => n ++ "=" ++ (match f with
     | .case dr sc => s!"C:{dr}:{sc}"
     | .other t => s!"O{t}"
-    | .badJson => "B")
+    | .badJson => "B"
+    | .dir => "D")
   let sorted := parts.mergeSort (fun a b => decide (a ≤ b))
   if sorted.isEmpty then "-" else ",".intercalate sorted
 
@@ -51,9 +52,9 @@ def handleRepo (line : String) : String :=
     let ops := (words req).drop 1
     let outs := words res
     if ops.length != outs.length then "bad" else
-    -- the model's directory is a flat map of plain file names: a history that plants a sub directory is outside the
-    -- model and is judged against the specification only (on what the Go code did to the directory)
-    let flat := !ops.any (fun o => o.startsWith "plantdir:" || o.startsWith "plantlink:")
+    -- the model knows sub directories only as far as os.Remove does; a history that plants a symbolic link is outside
+    -- the model and is judged against the specification only (on what the Go code did to the directory)
+    let flat := !ops.any (fun o => o.startsWith "plantlink:")
     let (_, diffs, viols, _) := (ops.zip outs).foldl (fun (acc : Dir × List String × List String × List (String × String)) (x : String × String) =>
       let (d, diffs, viols, prev) := acc
       let (op, out) := x
@@ -62,6 +63,7 @@ def handleRepo (line : String) : String :=
       let (mres, d') : String × Dir := match f with
         | ["plant", n] => ("ok", d.put n (.other 0))
         | ["plantbad", n] => ("ok", d.put n .badJson)
+        | ["plantdir", n] => ("ok", ((d.put n .dir).put (n ++ "/drv.a") (.other 0)).put (n ++ "/lib.a") (.other 0))
         | ["add", n] => let (ok, d') := add d n (n ++ ".a") (n ++ ".lua") true; (if ok then "ok" else "err", d')
         | ["addt", n, dr] => let (ok, d') := add d n dr (n ++ ".lua") false; (if ok then "ok" else "err", d')
         | ["del", n] => let (ok, d') := del d n; (if ok then "ok" else "err", d')
@@ -75,7 +77,7 @@ def handleRepo (line : String) : String :=
       (d', diffs, viols, after)) (([] : Dir), [], [], [])
     let ds := if diffs.isEmpty then "agree" else "DIFF " ++ ",".intercalate diffs
     let vs := if viols.isEmpty then "specok" else "VIOL " ++ ",".intercalate (viols.take 3)
-    s!"{ds} | {vs} | repo{if flat then "" else ".subdir"}"
+    s!"{ds} | {vs} | repo{if flat then "" else ".symlink"}"
   | _ => "bad"
 
 end Driver
